@@ -6,7 +6,7 @@ CONSTANTS Mode, MinN, MaxN, FullTo, Batch, Stride, Offset
 NItems == (MaxN - MinN + 1 + Batch - 1) \div Batch
 Picked == SelectSeq([j \in 1..NItems |-> j], LAMBDA j : (j + (j \div Stride) + (j \div (Stride * Stride))) % Stride = Offset % Stride)
 Descs == <<"", "plain", "two words here", "with > inside", " leading and trailing ", "tab\there",
-           "identity 100%", "50% GC %s %d %v", "back\\slash and \"quotes\"", "semi;colon, comma | pipe">>
+           "identity 100%", "50% GC %s %d %v", "back\\slash and \"quotes\"", "semi;colon, comma | pipe", ">marked", ">>two markers", "> blank after marker">>
 BatchJson(b) ==
   LET lo == MinN + (b - 1) * Batch
       hiN == IF lo + Batch - 1 > MaxN THEN MaxN ELSE lo + Batch - 1
